@@ -19,7 +19,9 @@ MANIFEST = dict(
           "round trip proved for strings without a bare ampersand that starts a reference, refuted in general by decided witnesses "
           "(known findings). Tie: differential runs of the four substitutions, quoting, Formatter.substitute/attribute_value and of "
           "both reader models against the real code and the real parser: every BMP code point, every table key, every entity name "
-          "with and without ';', all strings <= 4 (thorough 5) over a 12-symbol markup alphabet, random longer strings."),
+          "with and without ';', all strings <= 4 (thorough 5) over a 12-symbol markup alphabet, random longer strings; plus the same "
+          "substitutions through Tag.decode() for strings under every kind of parent element, custom cdata_containing_tags "
+          "configurations, and render histories on the shared registry formatters (same text in script/style first, then elsewhere)."),
     design="7/C09",
     note=("Text is read back inside <pre> (bs4 collapses whitespace-only strings elsewhere — builder policy, not entity handling). "
           "Decimal references of more than 4300 digits (C06) are not generated."),
@@ -28,7 +30,7 @@ MANIFEST = dict(
 
 ALPHABET = "&<>\"';#x1alt"
 RUNAWAY = 0x110000
-NAMES = "xml xmlce html html5 html5raw quote rt_xml q_xml ra_xml rt_html q_html ra_html rt_html5 q_html5 ra_html5 rt_raw ra_raw".split()
+NAMES = "xml xmlce html html5 html5raw quote html5old rt_xml q_xml ra_xml rt_html q_html ra_html rt_html5 q_html5 ra_html5 rt_raw ra_raw".split()
 KF_LEGACY = "C09-html5-bare-legacy-ref"
 KF_NUMERIC = "C09-html5-bare-numeric-ref"
 KF_SEMI = "C09-html5-unknown-ref-semicolon-dropped"
@@ -146,7 +148,10 @@ def real_case(s):
         quote = E.quoted_attribute_value(s)
     except Exception as e:  # an exception is an observable
         return "exc:" + type(e).__name__, [dict(what="substitution raised " + type(e).__name__, kind="exception", kf=None)], {"exception"}
-    fields = [xml, xmlce, html, html5, raw5, quote]
+    # what 4.13.0 as shipped computed (model: substHtml5Old), re-assembled from the live regexes and callbacks
+    esc = getattr(E, "_escape_entity_name", None) or (lambda m: "&amp;%s;" % m.group(1))
+    old5 = E.CHARACTER_TO_HTML_ENTITY_RE.sub(E._substitute_html_entity, E.ANY_ENTITY_RE.sub(esc, s))
+    fields = [xml, xmlce, html, html5, raw5, quote, old5]
     out = [tok(x) for x in fields]
     # Formatter.substitute / attribute_value of every registered formatter = its function
     fn = {"minimal": xml, "html": html, "html5": html5, "html5-4.12": html, None: s}
@@ -337,6 +342,190 @@ def gen_malformed(rng, count):
             yield "&" * rng.randrange(1, 5) + rng.choice(["lt;", "#60;", "amp", ";", ""]) + "&" * rng.randrange(0, 3)
 
 
+
+# ---------------------------------------------------------------------------------------------------------------
+# contexts, configurations and histories: Formatter.substitute decides per string, from the parent's name and the
+# formatter's cdata_containing_tags; the registry formatters are shared objects that live for the whole process
+# ---------------------------------------------------------------------------------------------------------------
+PARENTS = ["p", "textarea", "pre", "title", "template", "rt", "rp", "option", "a", "div", "td", "code", "x-custom", "scripts", "styles"]
+EXEMPT_CANDIDATES = ["script", "style"]
+CONTEXT_TEXTS = ["a<b", "x>y", "AT&T", "&lt;b&gt; makes text bold", "&amp;", "&copy; 2024", "if (a<b && b>c) go();", "]]> <!-- & -->",
+                 "é<ü", "\"q\" & 'r' <", "&#60;", "≧̸<⃒", "p > a { color: red }", "AT&T &amp; &lt;"]
+FN_CODE = {"substitute_xml": 1, "substitute_html": 2, "substitute_html5": 3}
+
+
+def _formatter(spec):
+    """formatter spec -> (argument for decode(formatter=…), the Formatter object or None, configured cdata set per the
+    documentation, function code, protocol prefix for the model)"""
+    from bs4.formatter import Formatter, HTMLFormatter, XMLFormatter
+    E = _E()
+    kind = spec["kind"]
+    if kind in ("name", "default"):
+        name = spec.get("name", "minimal") if kind == "name" else "minimal"
+        f = HTMLFormatter.REGISTRY[name]
+        arg = name
+        conf = {"script", "style"}
+        line = f"c09 fmt h {0 if name is None else 1} {tok(name or '')}"
+    elif kind == "registry":
+        reg = XMLFormatter.REGISTRY if spec["reg"] == "x" else HTMLFormatter.REGISTRY
+        f = reg[spec["name"]]
+        arg = f
+        conf = set() if spec["reg"] == "x" else {"script", "style"}
+        line = f"c09 fmt {spec['reg']} {0 if spec['name'] is None else 1} {tok(spec['name'] or '')}"
+    else:
+        es = getattr(E, spec["fn"])
+        cd = spec["cdata"]
+        if cd is not None:
+            cd = {"set": set, "frozenset": frozenset, "list": list, "tuple": tuple}[spec["ctype"]](cd)
+        cls = spec["cls"]
+        if cls == "HTMLFormatter":
+            f = HTMLFormatter(entity_substitution=es, cdata_containing_tags=cd)
+        elif cls == "XMLFormatter":
+            f = XMLFormatter(entity_substitution=es, cdata_containing_tags=cd)
+        else:
+            lang = {"Formatter-html": Formatter.HTML, "Formatter-xml": Formatter.XML, "Formatter-none": None}[cls]
+            f = Formatter(lang, es, cdata_containing_tags=cd)
+        arg = f
+        xml = cls in ("XMLFormatter", "Formatter-xml")
+        conf = set(spec["cdata"]) if spec["cdata"] is not None else (set() if xml else {"script", "style"})
+        cdtok = "none" if spec["cdata"] is None else (";".join(tok(x) for x in spec["cdata"]) or "-")
+        line = f"c09 fmtcfg {'x' if xml else 'h'} {FN_CODE[spec['fn']]} {cdtok}"
+    fn = 0 if f.entity_substitution is None else FN_CODE.get(getattr(f.entity_substitution, "__name__", ""), 99)
+    return arg, f, conf, fn, line
+
+
+def run_scenario(steps):
+    """Execute, in this process and in order, a list of steps {parent, s (code points), formatter spec}: each renders a
+    fresh <parent t=S>S</parent> with the formatter. Returns (failures, [(model line, real reply)])."""
+    from bs4 import BeautifulSoup
+    from bs4.element import NavigableString
+    E = _E()
+    fails, corr = [], []
+    for i, st in enumerate(steps):
+        s, parent, spec = uncps(st["s"]), st["parent"], st["formatter"]
+        arg, f, conf, fn, line = _formatter(spec)
+        soup = BeautifulSoup("", "html.parser")
+        tag = soup.new_tag(parent)
+        tag["t"] = s
+        tag.string = s
+        soup.append(tag)
+        sub_t = f.substitute(tag.string)
+        sub_a = f.attribute_value(s)
+        rendered = tag.decode() if spec["kind"] == "default" else tag.decode(formatter=arg)
+        corr.append((f"{line} {tok(parent)} {tok(s)}", tok(sub_t)))
+        corr.append((f"{line} none {tok(s)}", tok(sub_a)))
+        q = E.quoted_attribute_value(sub_a)
+        if rendered != f"<{parent} t={q}>{sub_t}</{parent}>":
+            fails.append(dict(step=i, what="Tag.decode() does not consist of Formatter.attribute_value/substitute of the attribute and the string",
+                              kf=None, observed=tok(rendered), expected=tok(f"<{parent} t={q}>{sub_t}</{parent}>")))
+        if fn == 0:
+            continue
+        where = f"step {i}: <{parent}> with formatter {json.dumps(spec, sort_keys=True)}"
+
+        def bad(what, observed, expected, written, kinds=()):
+            fails.append(dict(step=i, what=what + " — " + where, kf=sorted(kinds)[0] if kinds else None, kinds=sorted(kinds),
+                              observed=observed, expected=expected, written=tok(written)))
+        # attribute values are always substituted
+        if "<" in sub_a or ">" in sub_a:
+            bad("raw angle bracket in a substituted attribute value", tok(sub_a), None, sub_a)
+        t_back, a_back = parse_back(sub_t if parent not in conf else "", q)
+        if a_back != s:
+            bad("attribute value is read back differently", show(a_back), tok(s), q, classify_html5_attr(sub_a) if fn == 3 else ())
+        if parent in conf:
+            # the documented exception: content of cdata_containing_tags is left alone
+            if sub_t != s:
+                bad(f"string inside <{parent}> (one of this formatter's cdata_containing_tags) was changed", tok(sub_t), tok(s), sub_t)
+            continue
+        if "<" in sub_t or ">" in sub_t:
+            bad("raw angle bracket in substituted element text (the parent is not one of the formatter's cdata_containing_tags)",
+                tok(sub_t), None, sub_t)
+        if t_back != s:
+            bad("element text is read back differently (the parent is not one of the formatter's cdata_containing_tags)",
+                show_text(t_back), tok(s), sub_t, classify_html5_text(sub_t) if fn == 3 else ())
+        elif spec["kind"] in ("name", "default"):
+            # and in place: what the parser reads from the rendered element itself
+            back = BeautifulSoup(rendered, "html.parser").find(parent)
+            txt = None if back is None else "".join(str(c) for c in back.contents if isinstance(c, NavigableString))
+            att = None if back is None else back.get("t")
+            if txt != s or att != s:
+                bad("the rendered element is read back differently", show(txt) + " / " + show(att), tok(s), rendered,
+                    (classify_html5_text(sub_t) | classify_html5_attr(sub_a)) if fn == 3 else ())
+    return fails, corr
+
+
+def scenarios(ctx):
+    """(stream name, steps) — contexts (every parent name x every registered formatter), custom configurations of
+    cdata_containing_tags, and histories (same text first inside script/style, then in an ordinary element, and reverse)"""
+    rng = ctx.rng("contexts")
+    texts = list(CONTEXT_TEXTS)
+    for s in gen_random(rng, 400):
+        if len(texts) >= ctx.n(30, 120):
+            break
+        if any(c in s for c in "<>&") and s.strip(" \t\n\r\x0c") and not any(0xD800 <= ord(c) <= 0xDFFF for c in s) and "</" not in s:
+            texts.append(s)
+    html_specs = [{"kind": "default"}] + [{"kind": "name", "name": n} for n in ("minimal", "html", "html5", "html5-4.12", None)]
+    xml_specs = [{"kind": "registry", "reg": "x", "name": n} for n in ("minimal", "html", None)]
+    for s in texts:
+        for spec in html_specs + xml_specs:
+            for parent in PARENTS + EXEMPT_CANDIDATES:
+                yield "contexts", [dict(parent=parent, s=tok(s), formatter=spec)]
+    # custom configurations
+    cds = [(None, "set"), ([], "set"), ([], "frozenset"), ([], "list"), ([], "tuple"), (["script"], "set"), (["x-custom"], "set"),
+           (["pre", "script", "style"], "list")]
+    for s in texts[:8]:
+        for cls in ("Formatter-html", "Formatter-none", "Formatter-xml", "HTMLFormatter", "XMLFormatter"):
+            for fn in ("substitute_xml", "substitute_html"):
+                for cd, ctype in cds:
+                    spec = dict(kind="custom", cls=cls, fn=fn, cdata=cd, ctype=ctype)
+                    for parent in ("p", "script", "style", "x-custom", "pre", "textarea"):
+                        yield "custom-cdata", [dict(parent=parent, s=tok(s), formatter=spec)]
+    # histories: every text is unique to its history, so nothing rendered earlier in this process can interfere
+    k = 0
+    for base in texts[:ctx.n(16, 60)]:
+        for spec in html_specs[:5] + xml_specs[:2]:
+            for special in EXEMPT_CANDIDATES:
+                for order in ("special-first", "ordinary-first", "attribute-only-then-special"):
+                    k += 1
+                    s = tok(f"h{k}: " + base)
+                    a = dict(parent=special, s=s, formatter=spec)
+                    b = dict(parent=rng.choice(["p", "pre", "textarea", "div"]), s=s, formatter=spec)
+                    if order == "special-first":
+                        yield "histories", [a, b, a]
+                    elif order == "ordinary-first":
+                        yield "histories", [b, a, b]
+                    else:
+                        yield "histories", [b, a]
+
+
+def context_checks(ctx, drv):
+    lines, impl, where = [], [], []
+    for stream, steps in scenarios(ctx):
+        fails, corr = run_scenario(steps)
+        ctx.case((stream, json.dumps(steps, sort_keys=True)),
+                 sample={"stream": stream, "steps": steps} if stream == "histories" and len(ctx.samples) < 10 else None)
+        ctx.count(f"stream:{stream}")
+        for st in steps:
+            ctx.count(f"{stream}:parent:" + ("cdata-candidate" if st["parent"] in EXEMPT_CANDIDATES else "ordinary"))
+        case = {"op": "scenario", "stream": stream, "steps": steps}
+        for f in fails:
+            ctx.count(f"oracle-fail:{stream}" + (":known" if f.get("kf") else ""))
+            ctx.violation(f["what"], case=case | {"step": f["step"], "kinds": f.get("kinds"), "written": f.get("written")},
+                          expected=f.get("expected"), observed=f.get("observed"), stream=stream, kf=f.get("kf"))
+        real_fail = any(f.get("kf") not in ctx.known for f in fails)
+        for l, r in corr:
+            lines.append(l)
+            impl.append(r)
+            where.append((case, real_fail))
+    rep = drv.ask(lines)
+    for l, a, b, (case, real_fail) in zip(lines, impl, rep, where):
+        if a != b:
+            ctx.corr_disagreements += 1
+            ctx.count("disagreement:" + case["stream"])
+            if not real_fail:
+                ctx.violation("model and implementation disagree (Formatter.substitute / attribute_value)", case=case | {"line": l},
+                              observed=a, model=b, stream=case["stream"] + "-correspondence", no_failing_input=True)
+
+
 # ---------------------------------------------------------------------------------------------------------------
 def hash_seed_digest(seed):
     """substitute_html/html5 over all keys and their neighbours, in a fresh interpreter with the given PYTHONHASHSEED"""
@@ -352,7 +541,10 @@ def hash_seed_digest(seed):
 def run(ctx: Ctx):
     ctx.rule = ("one case = one string s: the five substitution functions, quoted_attribute_value, Formatter.substitute/attribute_value of "
                 "every registered formatter, and what the real parser reads back from <pre t=QUOTED>TEXT</pre> for the xml/html/html5 "
-                "outputs and for the raw string; non-trivial = substitute_html changes s (at least one escaped character)")
+                "outputs and for the raw string; non-trivial = substitute_html changes s (at least one escaped character); "
+                "one scenario = 1-3 renderings, in this process and in order, of <parent t=S>S</parent> through Tag.decode() with a registered, "
+                "default or custom-configured formatter (parents: 15 ordinary names + script/style; cdata_containing_tags: None, four empty "
+                "collections, three non-empty), each checked against the property and the documented exemption")
     ctx.assumptions = ["text is read back inside <pre> so that bs4's collapsing of whitespace-only strings (builder policy) does not interfere",
                        "the document tail after the text (`</pre>`) holds no ';' (the tokenizer's `&#` bail looks there)",
                        "no decimal character reference of more than 4300 digits (C06's ValueError)",
@@ -410,7 +602,7 @@ def run(ctx: Ctx):
         case = {"op": "subst", "s": tok(s), "repr": ascii(s)}
         real_fail = False
         for f in fails:
-            real_fail = real_fail or f.get("kf") is None
+            real_fail = real_fail or f.get("kf") not in ctx.known
             ctx.count("oracle-fail:" + f["kind"] + (":known" if f.get("kf") else ""))
             ctx.violation(f["what"], case=case | {"kind": f["kind"], "kinds": f.get("kinds"), "written": f.get("written")},
                           expected=f.get("expected"), observed=f.get("observed"), stream=stream, kf=f.get("kf"))
@@ -424,6 +616,8 @@ def run(ctx: Ctx):
                               observed=impl, model=model, stream=stream + "-correspondence", no_failing_input=True)
     # --- Formatter.substitute on a NavigableString inside a cdata-containing tag, and the dictionaries themselves
     formatter_and_dict_checks(ctx, drv)
+    # --- the same substitutions through Tag.decode(): every parent name, custom cdata_containing_tags, histories
+    context_checks(ctx, drv)
     # --- the order of the alternation (hash seed)
     seeds = (0, 1, 2, 3, 5, 8, 13, 12345)
     with ThreadPoolExecutor(max_workers=8) as ex:
@@ -484,6 +678,14 @@ def replay(path):
             print(f"  {n:9} = {ascii(uncps(x)) if x not in ('none', 'skip') and not x.endswith(str(RUNAWAY)) else x}")
         for f in fails:
             print("  PROPERTY FAILS:", f["what"], "| expected", f.get("expected"), "observed", f.get("observed"), "| known-finding class:", f.get("kf"))
+        return 1 if fails else 0
+    if c.get("op") == "scenario":
+        fails, _ = run_scenario(c["steps"])
+        for i, st in enumerate(c["steps"]):
+            print(f"step {i}: <{st['parent']}> text/attribute {ascii(uncps(st['s']))} formatter {st['formatter']}")
+        for f in fails:
+            print("  PROPERTY FAILS:", f["what"], "| expected", f.get("expected") and ascii(uncps(f["expected"])) if f.get("expected") and "/" not in f["expected"] else f.get("expected"),
+                  "| observed", f.get("observed"), "| known-finding class:", f.get("kf"))
         return 1 if fails else 0
     if c.get("op") == "hashseed":
         d = {seed: hash_seed_digest(seed) for seed in (0, 1, 2, 3, 5, 8, 13, 12345)}
